@@ -49,13 +49,6 @@ TARGETS = [
     dict(area="Tx", rel="vls-core/src/tx/tx.rs", consts=[], externals={}, fns=[
         ("CommitmentInfo2", "value_to_parties", "C05", "C05_fn_value_to_parties"),
         ("CommitmentInfo2", "total_value", "C05", "C05_fn_total_value"),
-        ("CommitmentInfo", "has_to_broadcaster", "C04", "C04_fn_has_to_broadcaster"),
-        ("CommitmentInfo", "has_to_countersigner", "C04", "C04_fn_has_to_countersigner"),
-    ]),
-    dict(area="Channel", rel="vls-core/src/channel.rs", consts=[], externals={}, fns=[
-        ("ChannelSetup", "is_static_remotekey", "C04", "C04_fn_is_static_remotekey"),
-        ("ChannelSetup", "is_anchors", "C04", "C04_fn_is_anchors"),
-        ("ChannelSetup", "is_zero_fee_htlc", "C04", "C04_fn_is_zero_fee_htlc"),
     ]),
     dict(area="Enforce", rel="vls-core/src/policy/validator.rs", consts=[], externals={}, fns=[
         ("EnforcementState", "set_next_holder_commit_num", "C03", "C03_fn_set_next_holder_commit_num"),
